@@ -12,7 +12,7 @@ from .c01 import ProgramProperty, norm_path, trim
 class C08(ProgramProperty):
     id = 'C08'
     technique = 'metamorphic property testing: one generated CST rendered under two layouts (base vs random / single-dimension), trees compared with ranges erased'
-    level_text = ('~12k (quick) / 250k (thorough) generated programs, each parsed in its base layout and in layout variants (LF/CRLF/CR, trailing blanks, blank and '
+    level_text = ('~100k (quick) / 600k (thorough) generated programs, each parsed in its base layout and in layout variants (LF/CRLF/CR, trailing blanks, blank and '
                   'comment lines, comments after code, indentation widths and tabs, form feeds, BOM, backslash joins, line breaks inside brackets, redundant '
                   'parentheses; composed and one dimension at a time): acceptance and the range-erased tree must not change')
     level_note = 'needs no reference implementation: the relation is between two runs of the parser; the layout renderer only rewrites what the property lists'
@@ -20,7 +20,7 @@ class C08(ProgramProperty):
             'multi-line construct; distinct by case hash; dimension histogram in classes')
 
     def budget(self, tier):
-        return 40000 if tier == "quick" else 600000
+        return 100000 if tier == "quick" else 600000
 
     def avoid(self):
         return {'C01-F1', 'C01-F2', 'C01-F3', 'C01-F22', 'C01-F23'}
